@@ -367,3 +367,34 @@ def decided(atom, lits):
     return seen.pop() if len(seen) == 1 else None
 
 
+
+
+def combined_value(stmts, name, builder=None):
+    """the value `name` holds after the straight-line/if block `stmts`, as one term: the per-path values folded into a
+    conditional expression over the path conditions (None when no path binds it)"""
+    names = backward_slice(ast.Module(body=list(stmts), type_ignores=[]), {name})
+
+    def rel(n):
+        if isinstance(n, (ast.Assign, ast.AugAssign)):
+            tgs = n.targets if isinstance(n, ast.Assign) else [n.target]
+            for tg in tgs:
+                base = tg
+                while isinstance(base, (ast.Subscript, ast.Attribute)):
+                    base = base.value
+                if isinstance(base, ast.Name) and base.id in names:
+                    return True
+        return False
+    paths = [p for p in enumerate_block(list(stmts), relevant=rel, unroll=(0, 1)) if p.exit != 'raise']
+    out = None
+    for p in reversed(paths):
+        b, conds = symbolic_run(p, builder.copy() if builder is not None else None)
+        v = b.env.get(name)
+        if v is None:
+            return None
+        v = T.simp(v)
+        cond = None
+        for c, tr, _ in conds:
+            lit = c if tr else ('not', c)
+            cond = lit if cond is None else ('and', cond, lit)
+        out = v if (out is None or cond is None) else ('ifexp', cond, v, out)
+    return out
